@@ -65,6 +65,8 @@ pub struct Cfg {
     pub pct_depth: u32,
     /// one `churn` step (at step index, n threads, first mode) in this run
     pub churn: Option<(u32, u16, u8)>,
+    /// one `crowd` step (at step index, n threads alive at once, first mode)
+    pub crowd: Option<(u32, u16, u8)>,
     /// chance that an operation is a verbatim repetition of an earlier one
     /// of the same run (same operands, usually another thread / mode)
     pub repeat_pct: u32,
@@ -91,7 +93,7 @@ impl Cfg {
             "threads<={} steps={} w(set,read,op,spawn,exit,die,sweep)={:?} \
              classes(witness,wide,exact,panicking)={:?} faults[panic={} die={} \
              exit={} preempt={} sinkerr={} dtor={} reent={} yield={}] personality={} shape={} \
-             builder%={} ref={} churn={:?} repeat%={} kinds={}",
+             builder%={} ref={} churn={:?} crowd={:?} repeat%={} kinds={}",
             self.max_threads,
             self.n_steps,
             self.w,
@@ -109,6 +111,7 @@ impl Cfg {
             self.builder_pct,
             if self.ref_per_event { "per-event" } else { "shared" },
             self.churn,
+            self.crowd,
             self.repeat_pct,
             kinds.join(",")
         )
@@ -213,6 +216,17 @@ pub fn gen_cfg(rng: &mut Rng, tier_thorough: bool) -> Cfg {
             None
         },
         repeat_pct: [0u32, 10, 25, 50][rng.usize_below(4)],
+        crowd: if rng.below(50) == 0 {
+            let n = match rng.below(4) {
+                0 => rng.range(9, 20),
+                1 => rng.range(17, 40),
+                2 => rng.range(33, 70),
+                _ => rng.range(65, if tier_thorough { 300 } else { 140 }),
+            };
+            Some((rng.below(n_steps as u64) as u32, n as u16, rng.below(8) as u8))
+        } else {
+            None
+        },
     }
 }
 
@@ -671,6 +685,30 @@ pub fn gen_op(rng: &mut Rng, cfg: &Cfg, kind: usize, class: Class) -> Op {
             let reent = cfg.f_reent && rng.pct(40);
             Op::Fmt { a, var, w: width, p, pauses, err_at, reent }
         }
+        // any other public API call (must not touch the mode)
+        21 => {
+            let which = rng.below(crate::ops::MISC_NAMES.len() as u64) as u8;
+            let floats: [f64; 16] = [
+                0.1, 2.5, -2.5, 1e-30, 1e39, -1e39, 1.7e38, 3.0e38, 1e50, 1e54, f64::MAX,
+                f64::INFINITY, f64::NAN, 123456789.125, -0.0, 5e-324,
+            ];
+            let strs: [&str; 14] = [
+                "1.5", "-0.25", "abc", "", "1e40", "1e-20", "0.0000000000000000001",
+                "12345678901234567890123456789012345678901", "-.5", "+7.", "1_000", "0e5", "1.5e", "17",
+            ];
+            let x = if rng.pct(70) { *rng.pick(&floats) } else { f64::from_bits(rng.next_u64()) };
+            let big = |rng: &mut Rng| -> Dec {
+                match rng.below(4) {
+                    0 => (i128::MAX - rng.below(1000) as i128, rng.range(0, 3) as u8),
+                    1 => (i128::MIN + 1 + rng.below(1000) as i128, rng.range(0, 3) as u8),
+                    2 => (0, rng.range(0, 5) as u8),
+                    _ => small_dec(rng),
+                }
+            };
+            let a = if panicking || wide { big(rng) } else { small_dec(rng) };
+            let b = if panicking { big(rng) } else { small_dec(rng) };
+            Op::Misc { which, a, b, x: x.to_bits(), s: rng.pick(&strs).to_string() }
+        }
         // to_string (control)
         _ => Op::ToStr { a: if wide { (sign * big(rng, 30), rng.range(0, 18) as u8) } else { small_dec(rng) } },
     }
@@ -791,6 +829,13 @@ pub fn gen_plan(seed: u64, idx: u64, tier_thorough: bool) -> Generated {
     let mut pool: Vec<Op> = Vec::new();
     while i < n && !live.is_empty() {
         i += 1;
+        if let Some((at, cn, cm)) = cfg.crowd {
+            if at + 1 == i {
+                if let Some(t) = live.iter().find(|t| t.parked == 0) {
+                    steps.push(Step::new(t.id, Action::Crowd { n: cn, m: cm }));
+                }
+            }
+        }
         if let Some((at, cn, cm)) = cfg.churn {
             if at + 1 == i {
                 // many short-lived threads, spawned by some thread that is not parked
